@@ -127,7 +127,7 @@ def specAfterPoll (sp : Sp) (op : Op) (p : Polled) : Sp :=
 def c16Table : String :=
   let row (t : Traits.Ty) : String :=
     let b := match t.base with | .prod => "P" | .work => "W" | .cons => "C"
-    let w := match t.wrap with | .plain => "plain" | .detached => "detached" | .async => "async" | .asyncDetached => "asyncdetached"
+    let w := match t.wrap with | .plain => "plain" | .detached => "detached" | .async => "async" | .asyncDetached => "asyncdetached" | .future => "future"
     s!"{b} {w} conc={Driver.b t.concurrent} isend={Driver.b t.itemSend} isync={Driver.b t.itemSync} send={Driver.b (Traits.isSend t)} sync={Driver.b (Traits.isSync t)}"
   ";".intercalate (Traits.allTys.map row)
 
